@@ -5,7 +5,7 @@ from .. import core, gen, impl_thr, scen
 from . import c01, c11
 
 ID = "C12"
-BUDGET = {"quick": 400, "thorough": 40000}
+BUDGET = {"quick": 1600, "thorough": 200000}
 RULE = ("scenario = 2-7 jobs with tag sets drawn from a 5-tag universe (incl. empty, equal, nested, disjoint), created through all six "
         "calls; once() with all four timing kinds and tags given as set, frozenset, list, tuple, generator, dict keys or None; "
         "queries get_jobs / delete_jobs with subset, superset, overlapping, disjoint, empty and None tag sets and both any_tag "
